@@ -469,8 +469,53 @@ def displacement(ctx):
     c02.pairing(ctx)
 
 
+def p_vectors(ctx):
+    """Strain.set_p_vectors: which reference vectors each atom gets, and the rotation of crystal-frame vectors into the system frame"""
+    fn = ctx.fn(ST, 'Strain.set_p_vectors')
+    cls = ctx.fn(ST, 'Strain')
+    loc = ST + '::Strain.set_p_vectors'
+    P1 = symarray('p', (4, 3), real=True)
+    T = symarray('t', (3, 3), real=True)
+
+    class Sys(PyStub):
+        natoms = 2
+    for tag, arg, axes in (('one set shared by all atoms', [P1], None), ('one set shared by all atoms, given in crystal axes', [P1], 'AXES'),
+                           ('one set given without the outer list', P1, None), ('one set per atom, given in crystal axes', [P1, 2 * P1], 'AXES')):
+        obj = SymObj(cls, {'system': Sys()}, 'self')
+        ev = SymEval(module_aliases(ctx.mod(ST)))
+        seen = []
+        ev.globals = {'axes_check': lambda a: (seen.append(a) or T)}
+        try:
+            r = [q for q in ev.run_fn(fn, [obj, arg], {'axes': axes}) if q.done == 'return']
+        except (Opaque, WouldRaise) as e:
+            raise AnalysisError('Strain.set_p_vectors (%s): %s' % (tag, e))
+        got = obj.attrs.get('_Strain__p_vectors')
+        ok = len(r) == 1 and got is not None and np.shape(got) == (2, 4, 3)
+        if ok:
+            for i in range(2):
+                base = (arg[i] if (isinstance(arg, list) and len(arg) == 2) else P1)
+                want = np.array([[sum(T[a_, j] * base[k, j] for j in range(3)) for a_ in range(3)] for k in range(4)], dtype=object) if axes is not None else base
+                ok = ok and equal(np.asarray(got[i], dtype=object), want, deep=False)
+            ok = ok and (seen == ['AXES'] if axes is not None else seen == [])
+        ctx.ob('P-VECTORS', loc, '%s: every atom gets its reference set%s' % (tag, ', each vector rotated into the system frame by the checked axes matrix (p\' = T·p)' if axes is not None else ' unchanged'), bool(ok),
+               node=fn, key='p_vectors ' + tag)
+    # the legacy function applies the same rotation
+    nfn = ctx.fn(NY, 'nye_tensor')
+    rot = [s_ for s_ in nfn.body if isinstance(s_, ast.If) and norm(s_.test).replace(' ', '') == 'axesisnotNone']
+    ctx.need(len(rot) == 1, 'nye_tensor: the axes transformation of p_vectors is not recognisable')
+    PV = symarray('q', (2, 4, 3), real=True)
+    ev = SymEval(module_aliases(ctx.mod(NY)))
+    ev.globals = {'axes_check': lambda a: T}
+    q = ev.block([rot[0]], [Path({'axes': 'AXES', 'p_vectors': PV})])
+    got = q[0].env.get('p_vectors') if len(q) == 1 else None
+    want = np.array([[[sum(T[a_, j] * PV[i, k, j] for j in range(3)) for a_ in range(3)] for k in range(4)] for i in range(2)], dtype=object)
+    ctx.ob('P-VECTORS', NY + '::nye_tensor', 'the legacy function rotates crystal-frame reference vectors the same way (p\' = T·p)', got is not None and np.shape(got) == (2, 4, 3) and equal(np.asarray(got, dtype=object), want, deep=False),
+           node=rot[0], key='p_vectors legacy')
+
+
 def run(ctx):
     ctx.explanation = ('C17: the strain/rotation/invariant/Nye kernels are evaluated on symbolic tensors; solve_G, solve_nye, slip_vector, disregistry and the differential-displacement '
                        'solver are evaluated on model systems with recording stubs (which atoms, which neighbours, which cell, argument roles of the least-squares fits, cache clearing); '
                        'match_pq is evaluated on model vector sets. Cython sources are read through Cython\'s parser. Not decided: numerical recovery of a deformation by least squares.')
-    ctx.run_rules([kernels, nye, solve_g, match, slip, disregistry, ddvectors, displacement])
+    from .. import readonly
+    ctx.run_rules([kernels, nye, solve_g, match, slip, disregistry, ddvectors, displacement, p_vectors, lambda c: readonly.rule(c, ST, floor=20) and None, lambda c: readonly.rule(c, SV, floor=1) and None])
